@@ -14,20 +14,25 @@ def _model(acc, tier):
     for k in KINDS:
         cfg = f"MC_AtomicWrite_run_{k}.cfg"
         with open(os.path.join(core.SPEC, cfg), "w") as f:
-            f.write(f"SPECIFICATION Spec\nCONSTANTS Writers = {nw}\n NChunks = 2\n InitKind = \"{k}\"\n InPlace = FALSE\n"
-                    "INVARIANTS TargetIntact ReaderSeesComplete SameContentSucceeds OkMeansWritten\nCHECK_DEADLOCK FALSE\n")
+            f.write(f"SPECIFICATION Spec\nCONSTANTS Writers = {nw}\n NChunks = 2\n InitKind = \"{k}\"\n InPlace = FALSE\n Faults = TRUE\n OnError = \"report\"\n"
+                    "INVARIANTS TargetIntact ReaderSeesComplete SameContentSucceeds OkMeansWritten FailureIsReported\nCHECK_DEADLOCK FALSE\n")
         r = core.run_tlc("AtomicWrite", cfg, f"C19_{k}", workers=8, timeout=1500)
         if not r.ok:
             raise core.ToolError(f"AtomicWrite[{k}] violates its invariants: {r.invariant_violated}\n{r.output[-2000:]}")
         req = ["ReadPrev", "CreateTemp", "Crash", "ROpen", "RRead"] if k != "absent" else ["ReadPrev", "CreateTemp", "Crash"]
         if not k.startswith("readonly"):
-            req += ["WriteChunk", "Persist"]
+            req += ["WriteChunk", "Persist", "TempFails", "WriteFails"]
         acc.add_tlc(f"AtomicWrite[{k}]", r, require_actions=req)
     # non-vacuity: the in-place variant must violate TargetIntact
     r = core.run_tlc("AtomicWrite", "MC_AtomicWrite_inplace.cfg", "C19_inplace", workers=2, timeout=600, coverage=False)
     if r.ok or not r.invariant_violated:
         raise core.ToolError("the in-place variant of AtomicWrite does not violate TargetIntact: the invariant is vacuous")
     acc.notes.append("non-vacuity: AtomicWrite with InPlace=TRUE violates TargetIntact (" + str(r.distinct) + " states)")
+    # ... and so must the caller that falls back to writing the target directly when the staged replacement fails
+    r = core.run_tlc("AtomicWrite", "MC_AtomicWrite_fallback.cfg", "C19_fallback", workers=2, timeout=600, coverage=False)
+    if r.ok or not r.invariant_violated:
+        raise core.ToolError("the fall-back-in-place variant of AtomicWrite does not violate TargetIntact: the fault actions are vacuous")
+    acc.notes.append("non-vacuity: AtomicWrite with Faults=TRUE, OnError=inplace violates TargetIntact (" + str(r.distinct) + " states)")
 
 
 def _drive(acc, tier):
@@ -58,10 +63,12 @@ def _drive(acc, tier):
 
 def run(tier, acc):
     acc.rule = ("M: TLC explores every interleaving of 2 (thorough: 3) writers x 2 chunks x a reader with a crash action enabled at "
-                "every program point, for the five initial states of the target, checking TargetIntact, ReaderSeesComplete, "
+                "every program point and the environment's faults (the temporary file cannot be created, a write to it fails part "
+                "way; the caller reports the error -- the variant that falls back to writing the target directly is refuted), for the five initial states of the target, checking TargetIntact, ReaderSeesComplete, "
                 "SameContentSucceeds; the in-place variant must violate TargetIntact. R/T: the real gentle_overwrite runs in child "
                 "processes with an abort at each of the 6 hook points x 5 initial states, with SIGKILL before each traced file-system "
-                "call (strace), as 1..8 concurrent writers with polling readers, and through compile_clvm; Trace_AtomicWrite checks "
+                "call (strace), as 1..8 concurrent writers with polling readers, through compile_clvm, and (Fault records) under a file size limit that stops the staged write part way, for "
+                "compile_clvm and gentle_overwrite x {different, same, absent}; Trace_AtomicWrite checks "
                 "each run is a behaviour of the model's writer and the final/observed contents are complete. "
                 "non-trivial = distinct (scenario, crash point) runs")
     acc.assumptions = ["POSIX rename atomicity and O_EXCL as written in AtomicWrite.tla, observed through the real kernel",
